@@ -76,7 +76,8 @@ def persistent_entropy(
     # Step 2: Persistent entropy computation.
     ps = []
     for dgm in dgms:
-        l = dgm[:, 1] - dgm[:, 0]
+        # (in float: the lengths of uint8 / int8 bars wrap around in their own dtype)
+        l = np.asarray(dgm[:, 1], dtype=float) - np.asarray(dgm[:, 0], dtype=float)
         if all(l > 0):
             L = np.sum(l)
             p = l / L
